@@ -36,31 +36,6 @@ InitLimits(C) == {l \in [1..Len(C.M) -> UNION {InitLimitSet(C.M[i]) : i \in 1..L
 CallChoices(X) ==
   {[NoChoice EXCEPT !.batch = b, !.t = X.now + d] : b \in SeqsUpTo(Alphabet, MaxBatch), d \in TimeSteps}
 
-TrChoices(X) ==
-  LET f == Top(X)
-      r == Rt(X, f.m)
-  IN IF r.state = END THEN {NoChoice}
-     ELSE LET v == Vec(StateOf(X, f.m, r.state), f.ev)
-          IN IF v = <<>> THEN {NoChoice}
-             ELSE UNION {
-               IF to < 0 THEN {[NoChoice EXCEPT !.to = to]}
-               ELSE LET nst == StateOf(X, f.m, to)
-                        Ls == IF r.state # to /\ HasLimit(nst.action) THEN nst.action.limit.vals ELSE {0}
-                        As == IF nst.ca.on /\ ~nst.ca.copy /\ ~IsNoDist(nst.ca.dist) THEN nst.ca.dist.vals ELSE {0}
-                        Bs == IF nst.cb.on /\ ~nst.cb.copy /\ ~IsNoDist(nst.cb.dist) THEN nst.cb.dist.vals ELSE {0}
-                    IN {[NoChoice EXCEPT !.to = to, !.lim = l, !.va = a, !.vb = b] :
-                          l \in Ls, a \in As, b \in Bs}
-               : to \in Outcomes(v)}
-
-AfterChoices(X) ==
-  LET f == Top(X)
-      a == StateOf(X, f.m, f.next).action
-      Ts == IF a.kind \in {"SendPadding", "BlockOutgoing"} THEN {DurOf(v) : v \in a.timeout.vals} ELSE {<<0, 0>>}
-      Ds == IF a.kind \in {"BlockOutgoing", "UpdateTimer"} THEN {DurOf(v) : v \in a.duration.vals} ELSE {<<0, 0>>}
-  IN IF AfterSched(X)
-     THEN {[NoChoice EXCEPT !.timeout = t, !.duration = d] : t \in Ts, d \in Ds}
-     ELSE {NoChoice}
-
 Choices(X) ==
   CASE Kind(X) = "call"  -> CallChoices(X)
     [] Kind(X) = "tr"    -> TrChoices(X)
